@@ -27,6 +27,7 @@ def run(s):
     K.reuse_objects(s, B.ITEM_KINDS, 110 if s.tier == 'quick' else 6000)
     K.item_grid(s, 3, pretties=(True,), kmax=2, full=False, inters=(False,), item_names=K.LONG_NAMES)
     K.item_grid(s, 4, pretties=(False,), kmax=2, full=False, inters=(False,), item_names=K.HOSTILE_NAMES_C)
+    K.item_grid(s, 4, pretties=(False,), kmax=2, full=False, inters=(False,), item_names=K.HOSTILE_NAMES_D)
     if s.tier == 'quick':
         K.item_grid(s, 4, pretties=(False,), kmax=3, full=False)
         K.item_grid(s, 4, pretties=(True,), kmax=2, full=False, inters=(False,), item_names=K.HOSTILE_NAMES)
